@@ -6,6 +6,7 @@ import (
 	"bufio"
 	"fmt"
 	"io"
+	"os"
 	"os/exec"
 	"strconv"
 	"strings"
@@ -23,19 +24,21 @@ const (
 func (r Result) String() string { return [...]string{"unsat", "sat", "unknown"}[r] }
 
 type Solver struct {
-	name      string
-	cmd       *exec.Cmd
-	in        io.WriteCloser
-	out       *bufio.Reader
-	defined   map[int]bool // term ids defined in the current path scope
-	deflist   []int
-	Queries   struct{ Sat, Unsat, Unknown, Errors int }
-	Time      time.Duration
-	ModelTime time.Duration
-	log       io.Writer
-	dead      bool
-	lastErr   string
-	timeoutMs int
+	name         string
+	cmd          *exec.Cmd
+	in           io.WriteCloser
+	out          *bufio.Reader
+	defined      map[int]bool // term ids defined in the current path scope
+	deflist      []int
+	Queries      struct{ Sat, Unsat, Unknown, Errors int }
+	Time         time.Duration
+	ModelTime    time.Duration
+	OneShots     int
+	oneShotModel map[string]uint64
+	log          io.Writer
+	dead         bool
+	lastErr      string
+	timeoutMs    int
 }
 
 func solverArgv(name string, timeoutMs int) []string {
@@ -189,6 +192,7 @@ func (s *Solver) Assert(t *Term) {
 
 // Check checks satisfiability of the asserted path condition plus the given extra literals.
 func (s *Solver) Check(extra ...*Term) Result {
+	s.oneShotModel = nil
 	for _, e := range extra {
 		if e.Op == OConst && e.C == 0 {
 			return Unsat
@@ -251,8 +255,111 @@ func (s *Solver) Check(extra ...*Term) Result {
 	return res
 }
 
+// OneShot decides pc /\ extra with a fresh, non-incremental solver run (full preprocessing).
+// Used when the incremental query came back unknown.  On sat the model is kept for Model/Value.
+func (s *Solver) OneShot(pc []*Term, extra []*Term, vars []*Term, timeoutS int) Result {
+	var sb strings.Builder
+	sb.WriteString("(set-option :produce-models true)\n")
+	hasFP := false
+	seen := map[int]bool{}
+	var order []*Term
+	var visit func(t *Term)
+	visit = func(t *Term) {
+		if t.Op == OConst || seen[t.ID] {
+			if t.S.K == KFP {
+				hasFP = true
+			}
+			return
+		}
+		seen[t.ID] = true
+		if t.S.K == KFP {
+			hasFP = true
+		}
+		for _, a := range t.A {
+			visit(a)
+		}
+		order = append(order, t)
+	}
+	all := append(append([]*Term{}, pc...), extra...)
+	for _, t := range all {
+		visit(t)
+	}
+	for _, v := range vars {
+		visit(v)
+	}
+	if !hasFP {
+		sb.WriteString("(set-logic QF_BV)\n")
+	}
+	for _, t := range order {
+		if t.Op == OVar {
+			fmt.Fprintf(&sb, "(declare-const |%s| %s)\n", t.N, t.S.SMT())
+		} else {
+			fmt.Fprintf(&sb, "(define-fun t%d () %s %s)\n", t.ID, t.S.SMT(), t.body())
+		}
+	}
+	for _, t := range all {
+		if t.Op == OConst {
+			if t.C == 0 {
+				return Unsat
+			}
+			continue
+		}
+		fmt.Fprintf(&sb, "(assert %s)\n", t.ref())
+	}
+	sb.WriteString("(check-sat)\n")
+	var names []string
+	for _, v := range vars {
+		names = append(names, v.ref())
+	}
+	if len(names) > 0 {
+		fmt.Fprintf(&sb, "(get-value (%s))\n", strings.Join(names, " "))
+	}
+	f, err := os.CreateTemp("", "vp-oneshot-*.smt2")
+	if err != nil {
+		return Unknown
+	}
+	defer os.Remove(f.Name())
+	f.WriteString(sb.String())
+	f.Close()
+	bin := "z3-new"
+	if s.name == "cvc5" {
+		bin = "z3-new"
+	}
+	t0 := time.Now()
+	out, _ := exec.Command(bin, fmt.Sprintf("-T:%d", timeoutS), f.Name()).CombinedOutput()
+	s.Time += time.Since(t0)
+	s.OneShots++
+	txt := string(out)
+	first := strings.TrimSpace(strings.SplitN(txt, "\n", 2)[0])
+	switch first {
+	case "unsat":
+		s.Queries.Unsat++
+		s.Queries.Unknown--
+		return Unsat
+	case "sat":
+		s.Queries.Sat++
+		s.Queries.Unknown--
+		m := map[string]uint64{}
+		if i := strings.Index(txt, "\n"); i >= 0 {
+			parseModel(txt[i+1:], m)
+		}
+		s.oneShotModel = m
+		return Sat
+	}
+	return Unknown
+}
+
 // Model returns the values of the given variables after a Sat answer.
 func (s *Solver) Model(vars []*Term) map[string]uint64 {
+	if s.oneShotModel != nil {
+		m := map[string]uint64{}
+		for _, v := range vars {
+			if val, ok := s.oneShotModel[v.N]; ok {
+				m[v.N] = val
+			}
+		}
+		return m
+	}
 	m := map[string]uint64{}
 	if len(vars) == 0 {
 		return m
@@ -278,6 +385,9 @@ func (s *Solver) Model(vars []*Term) map[string]uint64 {
 func (s *Solver) Value(t *Term) (uint64, bool) {
 	if t.Op == OConst {
 		return t.C, true
+	}
+	if s.oneShotModel != nil {
+		return evalTerm(t, s.oneShotModel, map[int]uint64{})
 	}
 	s.define(t)
 	t0 := time.Now()
